@@ -650,8 +650,17 @@ func (s *scen) judgeJSON(out []byte) *verdict {
 }
 
 func (s *scen) run() core.Result {
+	r := s.run0()
+	s.httpTwin(&r)
+	return r
+}
+
+func (s *scen) run0() core.Result {
 	r := core.Result{Class: "ok"}
 	r.Key = fmt.Sprintf("%s|%s|%v%v|%s|%v|%v|%v%v|%v", s.side, s.p.name, s.po.SetOptionalBitmap, s.po.UseDefaultValue, s.optName, s.state, s.order, s.unknown, s.unkNull, s.nested != nil)
+	if s.nested != nil {
+		r.Key += fmt.Sprintf("|%d%d%s", s.nested.outerReq, s.nested.outerState, s.nested.wrap)
+	}
 	if s.side == "j2t-portable" {
 		return s.runPortable(r)
 	}
